@@ -107,9 +107,11 @@ def _simple(e: ast.AST) -> bool:
 
 
 class Flattener:
-    def __init__(self, repo: Repo) -> None:
+    def __init__(self, repo: Repo, force: frozenset[str] = frozenset()) -> None:
         self.repo = repo
         self.inlined: list[tuple[str, str]] = []
+        #: census functions a rule wants merged into their caller (analysis of the caller/callee pair as one unit)
+        self.force = force
 
     def inlinable_target(self, call: ast.Call, ctx_fi: FuncInfo, stack: tuple[str, ...], gen: bool = False, cm: bool = False) -> FuncInfo | None:
         fn = call.func
@@ -134,7 +136,7 @@ class Flattener:
         if len(targets) != 1:
             return None
         t = targets[0]
-        if t.qualname in KNOWN_FUNCS or t.qualname.split("#")[0] in KNOWN_FUNCS:
+        if (t.qualname in KNOWN_FUNCS or t.qualname.split("#")[0] in KNOWN_FUNCS) and t.qualname not in self.force:
             return None
         if t.qualname in stack or t.name == "__init__":
             return None
@@ -344,6 +346,21 @@ class Flattener:
             ast.fix_missing_locations(second)
             rep = self.expand_stmt(first, ctx_fi, caller_names | {tmp}, stack, depth)
             return (rep if rep is not None else [first]) + [second]
+        if isinstance(s, ast.If) and isinstance(s.test, ast.BoolOp) and len(s.test.values) >= 2 \
+                and any(isinstance(x, ast.Call) and self.inlinable_target(x, ctx_fi, stack) is not None for v in s.test.values[1:] for x in ast.walk(v)):
+            # short-circuit expansion so that a helper call in a later operand gets a statement position of its own:
+            #   if a or b: S else: T   ==>  if a: S else: (if b: S else: T)
+            #   if a and b: S else: T  ==>  if a: (if b: S else: T) else: T
+            first = s.test.values[0]
+            rest = s.test.values[1] if len(s.test.values) == 2 else ast.BoolOp(op=s.test.op, values=s.test.values[1:])
+            inner = ast.copy_location(ast.If(test=rest, body=copy.deepcopy(s.body), orelse=copy.deepcopy(s.orelse)), s)
+            if isinstance(s.test.op, ast.Or):
+                new_if = ast.If(test=first, body=s.body, orelse=[inner])
+            else:
+                new_if = ast.If(test=first, body=[inner], orelse=s.orelse)
+            ast.copy_location(new_if, s)
+            ast.fix_missing_locations(new_if)
+            return self.flatten_block([new_if], ctx_fi, caller_names, stack, depth)
         if isinstance(s, ast.With) and len(s.items) == 1 and isinstance(s.items[0].context_expr, ast.Call):
             t = self.inlinable_target(s.items[0].context_expr, ctx_fi, stack, cm=True)
             bound = self.bind(s.items[0].context_expr, t, caller_names) if t is not None else None
@@ -372,8 +389,22 @@ class Flattener:
                     new = self.flatten_block(new, ctx_fi, caller_names | _names_stored(new), stack + (t.qualname,), depth - 1, resolve_ctx=t)
                 return new
         if isinstance(s, ast.For) and isinstance(s.iter, ast.Call) and not s.orelse \
-                and not any(isinstance(x, (ast.Break, ast.Continue, ast.Return, ast.Yield, ast.YieldFrom)) for b in s.body for x in ast.walk(b)):
+                and not any(isinstance(x, (ast.Return, ast.Yield, ast.YieldFrom)) for b in s.body for x in ast.walk(b)):
             t = self.inlinable_target(s.iter, ctx_fi, stack, gen=True)
+            if t is not None and any(isinstance(x, (ast.Break, ast.Continue)) for b in s.body for x in ast.walk(b)):
+                # `break` / `continue` of the for loop act on the generator's own loop once inlined: that is the same thing
+                # only if the (single) yield sits directly in one loop that is the generator's last statement (break), and is
+                # that loop body's last statement (continue)
+                gbody = [x for x in t.node.body if not (isinstance(x, ast.Expr) and isinstance(x.value, ast.Constant))]
+                ylds = [x for x in ast.walk(t.node) if isinstance(x, ast.Expr) and isinstance(x.value, ast.Yield)]
+                last = gbody[-1] if gbody else None
+                ok_ = len(ylds) == 1 and isinstance(last, (ast.While, ast.For)) and not last.orelse and any(x is ylds[0] for x in last.body) \
+                    and not any(isinstance(x, (ast.While, ast.For)) and x is not last and any(y is ylds[0] for y in ast.walk(x)) for x in ast.walk(last))
+                if ok_ and any(isinstance(x, ast.Continue) for b in s.body for x in ast.walk(b)) and last.body[-1] is not ylds[0]:
+                    ok_ = False
+                # a break/continue nested in a loop of the for body itself belongs to that loop: fine either way
+                if not ok_:
+                    t = None
             if t is not None:
                 # for x in helper_generator(args): body   ==>   helper body with `yield v` replaced by `x = v; body`
                 bound = self.bind(s.iter, t, caller_names)
@@ -790,6 +821,14 @@ class Flattener:
                     stores[n_] = stores.get(n_, 0) + 2
         params = {a.arg for a in node.args.posonlyargs + node.args.args + node.args.kwonlyargs} | ({node.args.vararg.arg} if node.args.vararg else set()) | ({node.args.kwarg.arg} if node.args.kwarg else set())
         mapping: dict[str, ast.AST] = {}
+        # a parameter that, at the method's only call site, always is a stable attribute chain of self
+        for pn in sorted(params):
+            try:
+                pa = self.repo.param_alias(fi, pn)
+            except Exception:
+                pa = None
+            if pa is not None and stores.get(pn, 0) == 0:
+                mapping[pn] = copy.deepcopy(pa)
         for s in body:
             if isinstance(s, ast.Expr) and isinstance(s.value, ast.Constant):
                 continue
